@@ -26,6 +26,11 @@ IndexSpace(ext) == {idx \in [1..Len(ext) -> 0..4] : InRange(ext, idx)}          
 Compatible(pat, ext) == Len(pat) = Len(ext) /\ \A r \in 1..Len(pat) : pat[r] = -1 \/ pat[r] = ext[r]
 RankDynamic(pat) == Cardinality({r \in 1..Len(pat) : pat[r] = -1})
 
+\* [mdspan.extents.cmp]: two extents objects (of any two extents types) are equal iff they have the same rank and the
+\* same extent at every position - static-ness and index type play no role.  [mdspan.layout.left/right.obs]: two
+\* mappings of the same layout are equal iff their extents are equal.
+ExtentsEqual(e1, e2) == Len(e1) = Len(e2) /\ \A r \in 1..Len(e1) : e1[r] = e2[r]
+
 \* ---- [mdspan.layout.right]: stride(r) = product of the extents to the right of r -----------------------
 StrideRight(ext, r) == ProdFrom(ext, r + 1, Len(ext))
 StridesRight(ext) == [r \in 1..Len(ext) |-> StrideRight(ext, r)]
